@@ -67,6 +67,8 @@ ENV_EXPRS = ["x", "'a' + b", "f()", "'HOME'", "n[0]"]
 class Gen:
     def __init__(self, rnd):
         self.rnd = rnd
+        self.p_newline = 0.12
+        self.col0 = 0  # column at which the text of the outermost command starts (prefix + opener)
         self.reserved = False  # set when a generated word contains a Python reserved word (outside the domain)
 
     def pieces(self, depth, closer):
@@ -154,7 +156,14 @@ class Gen:
         out = rnd.choice(["", "", " ", "  "])
         for i, p in enumerate(parts):
             if i:
-                out += rnd.choice([" ", " ", "  ", "\t", "   ", " \t "])
+                if rnd.random() < self.p_newline:
+                    # words on different lines: newline plus indentation, sometimes exactly up to the column where the previous word
+                    # ended (adjacency must compare lines, not only columns)
+                    last_nl = out.rfind("\n")
+                    col = len(out) - (last_nl + 1) + (self.col0 if last_nl < 0 else 0)
+                    out += "\n" + " " * rnd.choice([col, col, 0, rnd.randint(0, 12), col + 1, max(col - 1, 0)])
+                else:
+                    out += rnd.choice([" ", " ", "  ", "\t", "   ", " \t "])
             out += p
         out += rnd.choice(["", "", " ", "  "])
         return out, words
@@ -279,11 +288,12 @@ def run_shard(shard):
     for _ in range(shard["n"]):
         op = rnd.choice(list(FORMS))
         g.reserved = False
+        ctx, mode = rnd.choice(CONTEXTS) if rnd.random() < 0.5 else CONTEXTS[1]
+        g.col0 = len(ctx.split("{}")[0].rsplit("\n", 1)[-1]) + len(op)
         body, words = g.line(0, FORMS[op][0])
         if g.reserved:
             acc.count("skipped_reserved_word")
             continue
-        ctx, mode = rnd.choice(CONTEXTS) if rnd.random() < 0.5 else CONTEXTS[1]
         check_case(acc, op, body, words, ctx, mode)
     return acc.dump()
 
